@@ -215,7 +215,7 @@ type ConnCtl struct {
 	// AfterWrite is called after the underlying Write returned.
 	AfterWrite func(gid uint64, p []byte)
 	Log        []ConnEvent
-	upgraded    map[net.Conn]bool
+	upgraded   map[net.Conn]bool
 }
 
 type schedConn struct {
